@@ -1220,9 +1220,15 @@ def _check_stream(pkts, cuts):
     return None
 
 
+def _valid_frame(a):
+    return a[0] in TARGETS and a[1] in TARGETS and a[2] in FUNCTIONS and (a[5] if len(a) > 5 else 0) == 0
+
+
 def _check_router(pkts, cuts, script):
-    """per-function FIFO on the real router fed by the real transport; packets carry a unique tag in data[0:2]"""
-    stream = b''.join(_frame_ref(a[0], a[1], a[2], a[3], 0, a[4]) for a in pkts)
+    """per-function FIFO on the real router fed by the real transport; packets carry a unique tag in data[0:2].
+    Entries may be frames the receiver must reject (6th element = version <> 0, unknown target / function code):
+    the text then says: the VALID packets of the stream are delivered exactly, in order, per function."""
+    stream = b''.join(_frame_ref(a[0], a[1], a[2], a[3], a[5] if len(a) > 5 else 0, a[4]) for a in pkts)
     out, obs, r = impl_system(_cut(stream, cuts), script)
     # expected by the text: for each f, packets of function f arriving after the first receive for f, in order
     opened, exp_q, arrivals = set(), {}, iter(pkts)
@@ -1230,7 +1236,7 @@ def _check_router(pkts, cuts, script):
     for e in script:
         if e < 0:
             a = next(arrivals, None)
-            if a is not None and a[2] in opened:
+            if a is not None and _valid_frame(a) and a[2] in opened:
                 exp_q[a[2]].append(a)
         else:
             if e not in opened:
@@ -1434,6 +1440,7 @@ _CHECKS = {
     'unsupported_version_not_rejected': lambda c: _check_version(*c['args']),
     'stream_reassembly_mismatch': lambda c: _check_stream(c['packets'], c['cuts']),
     'router_fifo_violated': lambda c: _check_router(c['packets'], c['cuts'], c['script']),
+    'rejected_frame_desyncs_stream': lambda c: _check_router(c['packets'], c['cuts'], c['script']),
     'tunnel_uplink_changed': lambda c: _check_uplink(*c['args']),
     'tunnel_downlink_changed': lambda c: _check_downlink(c['driver'], [tuple(x) for x in c['items']], c['cuts']),
     'decode_encode_inconsistent': lambda c: _check_decode_consistent(*c['args']),
@@ -1545,6 +1552,37 @@ def oracle(ctx, deep=False):
             script = rng.sample(fpool, rng.randrange(1, len(fpool) + 1)) + script
         script += [rng.choice(fpool) for _ in range(rng.randrange(0, 4))]
         chk('router_fifo_violated', {'packets': ps, 'cuts': list(cuts), 'script': script})
+    # 4b. one connection carrying frames the receiver must reject (unsupported version, unknown target / function code;
+    #     empty and non-empty payloads) between valid ones: the valid packets are still delivered exactly, in order
+    def _reject(p):
+        k = rng.randrange(4)
+        if k == 0:
+            p.append(rng.randrange(1, 4))                    # version
+        elif k == 1:
+            p[0] = rng.choice([0, 5, 6, 7])
+        elif k == 2:
+            p[1] = rng.choice([0, 5, 6, 7])
+        else:
+            p[2] = rng.choice([0, 6, 7, 13, 16, 33, 63])
+    chk('rejected_frame_desyncs_stream', {'packets': [[3, 1, 3, 0, [0, 0]], [3, 1, 3, 0, [0, 1, 9], 1], [3, 1, 3, 0, [0, 2]]],
+                                          'cuts': [], 'script': [3, -1, -1, -1, 3, 3]})
+    for _ in range(ctx.scale(500, 8000) * (3 if deep else 1)):
+        ps = _rand_pkts(rng, rng.choice([2, 3, 4, 6, 9]), tag=True)
+        fs = rng.sample(FUNCTIONS, rng.choice([1, 2, 3]))
+        for p in ps:
+            p[2] = rng.choice(fs)
+            if rng.random() < 0.5:
+                p[4] = p[4][:2] + [rng.randrange(256) for _ in range(rng.choice([0, 0, 1, 2, 4, 9]))]
+        for p in rng.sample(ps[:-1], rng.randrange(1, max(2, len(ps) // 2))):
+            _reject(p)
+        L = sum(len(p[4]) + 4 for p in ps)
+        cuts = _rand_cuts(rng, L, _bounds(ps))
+        script = list(fs)                                   # queues exist before anything arrives
+        body = [-1] * len(ps) + [rng.choice(fs) for _ in range(rng.randrange(0, len(ps) + 2))]
+        if rng.random() < 0.5:
+            rng.shuffle(body)
+        script += body + [f for f in fs for _ in range(len(ps) + 1)][:3 * len(ps)]
+        chk('rejected_frame_desyncs_stream', {'packets': ps, 'cuts': list(cuts), 'script': script})
     # 5. tunnel
     for i in range(ctx.scale(300, 5000)):
         kind = ('tcp', 'serial')[i % 2]
@@ -1608,7 +1646,7 @@ def oracle(ctx, deep=False):
 def _shrink(f):
     """greedy minimisation (fewer packets, shorter payloads, fewer cuts, shorter script)"""
     cls, case = f['class'], dict(f['case'])
-    if cls not in ('stream_reassembly_mismatch', 'router_fifo_violated', 'tunnel_downlink_changed'):
+    if cls not in ('stream_reassembly_mismatch', 'router_fifo_violated', 'rejected_frame_desyncs_stream', 'tunnel_downlink_changed'):
         return f
     best = f
     changed = True
@@ -1642,9 +1680,9 @@ def _shrink(f):
             for i in range(len(cuts)):
                 cands.append(dict(case, cuts=cuts[:i] + cuts[i + 1:]))
             for i, p in enumerate(ps):
-                keep = 2 if cls == 'router_fifo_violated' else 0      # router packets carry a 2-byte tag
+                keep = 2 if cls != 'stream_reassembly_mismatch' else 0      # router packets carry a 2-byte tag
                 if len(p[4]) > keep:
-                    q = [p[0], p[1], p[2], p[3], p[4][:max(keep, len(p[4]) // 2)]]
+                    q = [p[0], p[1], p[2], p[3], p[4][:max(keep, len(p[4]) // 2)]] + list(p[5:])
                     L = sum(len(x[4]) + 4 for x in ps[:i] + [q] + ps[i + 1:])
                     cands.append(dict(case, packets=ps[:i] + [q] + ps[i + 1:], cuts=[c for c in cuts if c < L]))
             if 'script' in case:
